@@ -8,6 +8,7 @@
 from .language import *
 from pyModelChecking.graph import compute_SCCs
 from pyModelChecking.kripke import Kripke
+from pyModelChecking.PL.language import get_atomic_proposition_names
 
 import pyModelChecking.CTLS
 
@@ -207,7 +208,8 @@ def modelcheck(kripke, formula, parser=None, F=None):
     if F is not None:
         kripke = kripke.clone()
 
-        fair_label = kripke.label_fair_states(F)
+        avoid = get_atomic_proposition_names(formula)
+        fair_label = kripke.label_fair_states(F, avoid)
 
         formula = formula.get_equivalent_non_fair_formula(fair_label)
 
